@@ -188,6 +188,30 @@ def obligations():
             ok_h = ok_h and prep is not None
     add('heuristic_dispatch_trace_logdet_else_ValueError', ['C14', 'C16'], ok_h,
         "'trace' -> identity weight, 'logdet<N>' -> N reweighted solves, anything else -> ValueError; prepare_heuristic(wc_value, tol_dimension_reduction) first")
+    # PEP.solve forwards each option to the parameter of the same name (a call-site precondition: positional arguments line up with the callee's signature)
+    try:
+        solve_fn, _, _ = front.find_function('PEPit/pep.py', 'PEP.solve')
+        params = [a.arg for a in fn.args.args][1:]
+        calls = [c for c in _calls(solve_fn, '_solve_with_wrapper')]
+        ok_fw = len(calls) == 1
+        detail_fw = ''
+        if ok_fw:
+            call = calls[0]
+            for k, arg in enumerate(call.args):
+                if not (k < len(params) and isinstance(arg, ast.Name) and arg.id == params[k]):
+                    ok_fw, detail_fw = False, 'argument %d is %r for parameter %r' % (k, _src(arg), params[k] if k < len(params) else None)
+                    break
+            for kw in call.keywords:
+                if kw.arg is not None and not (isinstance(kw.value, ast.Name) and kw.value.id == kw.arg):
+                    ok_fw, detail_fw = False, 'keyword %s=%s' % (kw.arg, _src(kw.value))
+            given = set(params[:len(call.args)]) | {kw.arg for kw in call.keywords if kw.arg}
+            missing = [p_ for p_ in params if p_ not in given]
+            if missing:
+                ok_fw, detail_fw = False, 'options not forwarded: %s' % missing
+    except KeyError as e:
+        ok_fw, detail_fw = False, str(e)
+    add('solve_forwards_each_option_to_its_parameter', ['C14', 'C16', 'C13'], ok_fw,
+        'PEP.solve passes wrapper, verbose, return_primal_or_dual, dimension_reduction_heuristic, eig_regularization, tol_dimension_reduction to the parameters of the same names ' + detail_fw)
     add('values_evaluated_from_the_final_solution', ['C02', 'C14'], None not in (i_eval, i_chk) and i_eval < i_chk and 'self._eval_points_and_function_values(F_value, G_value' in _src(body[i_eval]),
         'points and function values are assigned from the (G, F) of the last solve, then check_feasibility computes the dual bound')
     return out
